@@ -61,28 +61,31 @@ impl core::convert::From<ValidationError> for Status {
 // policy_err!(obj, tag, ..) expands to obj.policy().policy_error(tag, msg)? which is
 // policy_error_with_filter: Err iff filter.filter(tag) == Error.
 pub uninterp spec fn vx_strict(tag: u64) -> bool;
+// ValidationErrorKind::UnknownDestinations: the one refusal an approver may override (policy/error.rs: only
+// unknown_destinations_error builds it)
+pub uninterp spec fn ve_unknown_dest(e: ValidationError) -> bool;
 
 #[verifier::external_body]
 pub fn vx_policy_err<T>(obj: &T, tag: u64) -> (r: Result<(), ValidationError>)
-    ensures r.is_err() == vx_strict(tag)
+    ensures r.is_err() == vx_strict(tag), r.is_err() ==> !ve_unknown_dest(r->Err_0)
 { unimplemented!() }
 
 #[verifier::external_body]
 pub fn vx_temporary_policy_err<T>(obj: &T, tag: u64) -> (r: Result<(), ValidationError>)
-    ensures r.is_err() == vx_strict(tag)
+    ensures r.is_err() == vx_strict(tag), r.is_err() ==> !ve_unknown_dest(r->Err_0)
 { unimplemented!() }
 
 #[verifier::external_body]
-pub fn vx_transaction_format_error() -> ValidationError { unimplemented!() }
+pub fn vx_transaction_format_error() -> (r: ValidationError) ensures !ve_unknown_dest(r) { unimplemented!() }
 
 #[verifier::external_body]
-pub fn policy_error<A, B>(tag: A, msg: B) -> ValidationError { unimplemented!() }
+pub fn policy_error<A, B>(tag: A, msg: B) -> (r: ValidationError) ensures !ve_unknown_dest(r) { unimplemented!() }
 #[verifier::external_body]
-pub fn transaction_format_error<B>(msg: B) -> ValidationError { unimplemented!() }
+pub fn transaction_format_error<B>(msg: B) -> (r: ValidationError) ensures !ve_unknown_dest(r) { unimplemented!() }
 #[verifier::external_body]
-pub fn script_format_error<B>(msg: B) -> ValidationError { unimplemented!() }
+pub fn script_format_error<B>(msg: B) -> (r: ValidationError) ensures !ve_unknown_dest(r) { unimplemented!() }
 #[verifier::external_body]
-pub fn mismatch_error<B>(msg: B) -> ValidationError { unimplemented!() }
+pub fn mismatch_error<B>(msg: B) -> (r: ValidationError) ensures !ve_unknown_dest(r) { unimplemented!() }
 #[verifier::external_body]
 pub fn invalid_argument<B>(msg: B) -> Status { unimplemented!() }
 #[verifier::external_body]
